@@ -29,7 +29,7 @@ Init == /\ inp \in (IF GenSteps = 0 THEN Inputs ELSE DocsOf("newick") \cup {<<>>
 
 \* simulation only: the first GenSteps steps apply random edits (double edits, random strings)
 Generate == /\ gen > 0 /\ gen' = gen - 1
-            /\ inp' \in SingleEdits(inp, A, {}, 4) \cup {Append(inp, t) : t \in Alpha}
+            /\ inp' = RandomElement(SingleEdits(inp, A, {}, 4) \cup {Append(inp, t) : t \in Alpha})
             /\ UNCHANGED <<pos, tok, nw, ntrees, outcome, depth>>
 
 Between ==  \* _parse_tree_statement, before the statement: skip ';', stop at the end of the stream
